@@ -9,6 +9,7 @@ import (
 	"time"
 
 	"github.com/goreleaser/nfpm/v2"
+	"github.com/goreleaser/nfpm/v2/files"
 	v "github.com/goreleaser/nfpm/v2/internal/zzverif"
 	"github.com/goreleaser/nfpm/v2/internal/zzverif/models"
 	"github.com/goreleaser/nfpm/v2/internal/zzverif/scen"
@@ -52,7 +53,10 @@ func verifMissingRef(format string) {
 	mt := time.Unix(1500000000, 0).UTC()
 	script := models.AddFile("/scripts/s", []byte("#!/bin/sh\n"), 0o755, mt)
 	key := models.AddFile("/keys/k", []byte("not a key"), 0o600, mt)
-	refs := []string{sc.Info.Contents[0].Source, sc.Info.Contents[1].Source, script, key}
+	doc := models.AddFile("/src/README", []byte("r"), 0o644, mt)
+	docType := []string{files.TypeRPMDoc, files.TypeRPMLicence, files.TypeRPMLicense, files.TypeRPMReadme}[v.NondetChoice("doctype", 4)]
+	sc.Info.Contents = append(sc.Info.Contents, &files.Content{Source: doc, Destination: "/usr/share/doc/pkg/README", Type: docType})
+	refs := []string{sc.Info.Contents[0].Source, sc.Info.Contents[1].Source, script, key, doc}
 	switch v.NondetChoice("which.script", 3) {
 	case 0:
 		sc.Info.Scripts.PreInstall = script
@@ -81,6 +85,9 @@ func verifMissingRef(format string) {
 		if format == "archlinux" || format == "ipk" {
 			return // no signing in these formats
 		}
+	}
+	if k == 4 && format != "rpm" {
+		return // documentation entries exist only in rpm packages
 	}
 	models.Remove(refs[k])
 	var buf bytes.Buffer
